@@ -274,6 +274,15 @@ pub trait Children {
     fn c_nest(&self) -> &Self::NestChild;
 }
 
+/// Methods returning `Self`: the opaque object wraps the returned implementor into a new object
+/// of its own kind (with its own clone of the context).
+#[cglue_trait]
+pub trait Dup {
+    fn dup(&self) -> Self;
+    fn split(&mut self, by: u64) -> Self;
+    fn dval(&self) -> u64;
+}
+
 /// Only a shared receiver, returning an owned wrapped object: what a borrowed child needs in order
 /// to have descendants of its own.
 #[cglue_trait]
@@ -878,6 +887,22 @@ macro_rules! implementor {
             fn c_count(&self) -> u64 {
                 self.core.enter("c_count", 0, &[]);
                 self.core.get()
+            }
+        }
+
+        impl Dup for $name {
+            fn dup(&self) -> Self {
+                self.core.enter("dup", 0, &[]);
+                <$name>::new(self.core.child(0xD0))
+            }
+            fn split(&mut self, by: u64) -> Self {
+                self.core.enter("split", by, &[]);
+                self.core.mix(by);
+                <$name>::new(self.core.child(by ^ 0xD1))
+            }
+            fn dval(&self) -> u64 {
+                self.core.enter("dval", 0, &[]);
+                self.core.get() ^ 0xD2
             }
         }
 
